@@ -30,7 +30,7 @@ import (
 	"verif/internal/model"
 )
 
-const rule = "cases: constructor arguments derived from generated specs - NewRouterInfo (Ed25519 identity, 0..8 addresses built by NewRouterAddress with arbitrary option maps incl. empty values and one-character keys, arbitrary options), NewLeaseSet (destination signing types DSA incl. NULL certificate, P-256, Ed25519, RedDSA; 0..16 leases), NewLeaseSet2 (every flag combination of bits 1-2, 1..16 keys, 1..16 leases, options, offline block created by CreateOfflineSignature (Ed25519 / RedDSA destinations) or by NewOfflineSignature around the destination's own DSA signature (DSA destinations, KEY and NULL certificate), transient types 0,1,7,11), NewEncryptedLeaseSet and NewEncryptedLeaseSetFromDestination (all four accepted key representations, with and without offline block), CreateOfflineSignature (destination types 7, 11). Oracle: constructor succeeded with the private key matching the identity => Verify succeeds; Read*(Bytes()) succeeds with an empty remainder and the parsed value verifies; the independent verifier of C05 (stdlib crypto over the raw bytes, specification prefix) accepts the bytes. Non-trivial: >= 1 option, address, lease beyond the first, or offline block; distinct by output bytes minus signature."
+const rule = "cases: constructor arguments derived from generated specs - NewRouterInfo (Ed25519 identity, 0..8 addresses built by NewRouterAddress with arbitrary option maps incl. empty values and one-character keys, arbitrary options), NewLeaseSet (destination signing types DSA incl. NULL certificate, P-256, Ed25519, RedDSA; 0..16 leases), NewLeaseSet2 (every flag combination of bits 1-2, 1..16 keys incl. unassigned and experimental key types of any length, 1..16 leases, options, offline block created by CreateOfflineSignature (Ed25519 / RedDSA destinations) or by NewOfflineSignature around the destination's own DSA signature (DSA destinations, KEY and NULL certificate), transient types 0,1,7,11), NewEncryptedLeaseSet and NewEncryptedLeaseSetFromDestination (all four accepted key representations, with and without offline block), CreateOfflineSignature (destination types 7, 11). Oracle: constructor succeeded with the private key matching the identity => Verify succeeds; Read*(Bytes()) succeeds with an empty remainder and the parsed value verifies; the independent verifier of C05 (stdlib crypto over the raw bytes, specification prefix) accepts the bytes. Non-trivial: >= 1 option, address, lease beyond the first, or offline block; distinct by output bytes minus signature."
 
 // touch calls every argument-free exported method of v (and of the library
 // values those return) once; a read-only accessor must not change what verifies.
@@ -518,7 +518,7 @@ func genCase(t *rapid.T) Case {
 		c.LS = &s
 	case "ls2":
 		s := gen.LS2G(t, "ls2", []int{7, 7, 11, 0, 1})
-		s.Keys = gen.KeysG(t, "skeys", true)
+		s.Keys = gen.KeysG(t, "skeys", rapid.IntRange(0, 7).Draw(t, "knownkeytypes") != 0) // one case in eight also carries keys of unassigned and experimental types (any length)
 		if s.Header.Offline != nil {
 			if s.Header.Dest.SigType == 1 {
 				s.Header.Dest.SigType = 0 // P-256 destinations: known finding F-ECDSA-VERIFY whatever the block
